@@ -102,8 +102,7 @@ Setup ==
                  n == IF C.kind = "ping" /\ Dev_PingOneMore THEN Len(W) + 1 ELSE Len(W)
              IN /\ wl' = [i \in 1..n |-> Enc(W[IF i > Len(W) THEN Len(W) ELSE i])]
                 /\ dl' = [i \in 1..n |-> W[IF i > Len(W) THEN Len(W) ELSE i].d]
-          /\ IF ~C.opt.valid THEN done' = "exc" /\ pc' = "Judge"      \* dtc clear: error record, then the encoder raises
-             ELSE done' = done /\ pc' = "Session"
+          /\ done' = done /\ pc' = "Session"
   /\ UNCHANGED <<C, env, stage, chk, wi, att, nsub, slept, twice, last, truth, verdict>>
 
 Session ==
@@ -225,7 +224,8 @@ RepNeg ==
 
 Finish ==
   /\ pc = "Finish"
-  /\ done' = "ok" /\ pc' = "Judge"
+  /\ done' = (IF C.opt.valid THEN "ok" ELSE "exc")     \* dtc clear out of range: error record, then the encoder raises
+  /\ pc' = "Judge"
   /\ UNCHANGED <<C, env, stage, chk, wl, dl, wi, att, nsub, slept, twice, last, truth, now, hist, verdict>>
 
 Judge ==
